@@ -13,7 +13,7 @@ From RU Require Import Base.Prelude Base.Utf8 Base.Utf8Facts Model.AsciiSet Gen.
   Proofs.C02_AuthMain Proofs.C02_Hist Proofs.C02_HistInst Proofs.C02_SetQF Proofs.C02_Canon Proofs.C02_SetPort
   Proofs.C02_JoinTail Proofs.C02_ReachPartial.
 From RU Require Import Model.Host Proofs.C09_Host Proofs.C16_RT6Model.
-From RU Require Import Model.FormUrlencoded Model.QueryPairs Proofs.C02_Form Proofs.C02_SetCred Proofs.C02_SetCredCanon Proofs.C02_Reach3.
+From RU Require Import Model.FormUrlencoded Model.QueryPairs Proofs.C02_Form Proofs.C02_SetCred Proofs.C02_SetCredCanon Proofs.C02_QPort Proofs.C02_Reach3.
 From RU Require Proofs.C15_Ser.
 Open Scope string_scope.
 Open Scope N_scope.
@@ -728,6 +728,15 @@ Check C02_set_username_Canon : forall dbg hp hpo hd u un u' s, Canon hp hpo hd u
   set_username dbg u un = Some (u', s) -> nlen (ser u') <= 4294967295 -> Canon hp hpo hd u'.
 Print Assumptions C02_set_username_Canon.
 
+(* the quirks port setter (url::quirks::set_port): the argument goes through the port state of the parser in the
+   setter context - a port <= 65535 other than the scheme's default, or none - then set_port_internal *)
+Theorem C02_q_set_port_Canon : forall dbg hp hpo hd u v u' s, Canon hp hpo hd u ->
+  q_set_port dbg u v = Some (u', s) -> nlen (ser u') <= U32_MAX_P -> Canon hp hpo hd u'.
+Proof. exact q_set_port_Canon. Qed.
+Check C02_q_set_port_Canon : forall dbg hp hpo hd u v u' s, Canon hp hpo hd u ->
+  q_set_port dbg u v = Some (u', s) -> nlen (ser u') <= 4294967295 -> Canon hp hpo hd u'.
+Print Assumptions C02_q_set_port_Canon.
+
 (* the two setters computed on the frame  scheme "://" user rest X  (rest = "" | "@" | ":" pw "@"; X = everything from
    the host on, offsets behind the userinfo stored relative to its start) *)
 Theorem C02_set_password_shape : forall dbg sch X dh dp dq df hi pt Un Ur p, usv_list p -> p <> [] ->
@@ -766,8 +775,8 @@ Proof. exact statement3_implies_2. Qed.
 Print Assumptions C02_statement3_implies_statement.
 
 (* C02_statement3 restricted to the histories of C02_reach_partial extended by set_password / set_username calls with
-   arbitrary arguments, by the quirks setters username / password / search / hash (wrappers of proved setters) and by
-   query_pairs_mut sessions (ReachC2; canon_op = the nine operations with a proved L2) *)
+   arbitrary arguments, by the quirks setters username / password / search / hash (wrappers of proved setters) and port, and by
+   query_pairs_mut sessions (ReachC2; canon_op = the ten operations with a proved L2) *)
 Theorem C02_reach_partial2 : forall dbg hp hpo hd, HostOK2 hp hpo hd -> forall u, ReachC2 dbg hp hpo hd u ->
   Fixpoint_of_reparse dbg hp hpo hd u /\ wf_b u = true /\ ascii (ser u).
 Proof. exact reach_partial2. Qed.
